@@ -14,8 +14,9 @@ RULE = ("Hypothesis scenes over all 100 ordered collider-kind pairs (Margin "
         "Only clear scenes are asserted (gap >= delta -> all tests False; "
         "common point >= delta inside both -> all True; delta = 1e-3*L); "
         "flat-solid scenes (depth taken in the solid partner) are bucketed "
-        "separately as agreement/flat. Tests: jolt, libccd, mpr, nesterov "
-        "(+acceleration), nesterov-primitives on the 25 primitive pairs, and "
+        "separately as agreement/flat. Tests: jolt, libccd, mpr, nesterov, "
+        "nesterov-primitives on the 25 primitive pairs (the five tests the "
+        "property names, default arguments), and "
         "gjk_distance_jolt d==0 / d>0. Non-trivial: gap or depth within "
         "[delta, 100*delta], or identical/centre-coincident/shared-rotation "
         "scenes. Distinct by hash of the scene spec.")
